@@ -243,6 +243,18 @@ def check(ctx, search=False):
         ctx.count(("getkey", it[0], "all", int(it[2]), hx(it[1])), tag="modes-extra-encoding")
         for w, fp in b:
             ctx.violation(w, ("getkey", it[0], "curtsies", int(it[2]), hx(it[1])), fp)
+    # runs of undecodable / unfinished bytes walked byte by byte up to MAX_KEYPRESS_SIZE + 2 (get_key's length guard)
+    M = ev.MAX_KEYPRESS_SIZE
+    pats = [b"\x00\xd8", b"\xd8\x00", b"\x81", b"\xff", b"\x8f\xa1", b"\x00\x00\x11", b"\xe2\x82", b"\x1b[1;", b"a", b"\xc0", b"\xf8\x80"]
+    items = []
+    for enc in EXTRA_ENCS + ["euc-jp", "utf-16-be"] + list(ENCS):
+        for pat in pats:
+            run = (pat * (M + 2))[:M + 2]
+            items += [(enc, run[:n], full) for n in range(1, M + 3) for full in (False, True)]
+    for it, b in zip(items, kc.par_map(oracle_node, items, procs)):
+        ctx.count(("getkey", it[0], "all", int(it[2]), hx(it[1])), tag="modes-long-run")
+        for w, fp in b:
+            ctx.violation(w, ("getkey", it[0], "curtsies", int(it[2]), hx(it[1])), fp)
     texts = ["h", "hi", "hi!", "a b", "\u00e9", "h\u20acllo", "\U0001f600", "a\x1b[A", "\x1bOP", "x\x7f", "~~", "A\u00ff"]
     streams = []
     for enc in EXTRA_ENCS:
